@@ -175,3 +175,38 @@ theorem pastCb_never (fuel k : Nat) (m : Mgr) (hl : m.lst = [0]) (ht : m.tm 0 = 
     rw [if_pos]
     simp only [decide_eq_true_eq]; omega
 end Igris.C16
+
+namespace Igris.C16
+
+/-- a planned timer that is due when the loop starts gets its callback, unless an earlier
+callback of this exec made a call naming it -/
+theorem Steps.due_runs {cb : Cb} {now : Int} {k : Nat} {m m' : Mgr} {fs : List Fire}
+    (h : Steps cb now k m fs m') (hcb : CbPos cb) (hm : WF m) (hdone : m'.headDue now = Option.none)
+    (i : Nat) (hi : i ∈ m.lst) (hdue : (m.tm i).finish ≤ now) :
+    (∃ f ∈ fs, f.id = i ∧ f.deadline = (m.tm i).finish) ∨
+    (∃ n f a, fs[n]? = some f ∧ a ∈ cb (k + n) f.id ∧ a.target = i) := by
+  induction h with
+  | nil k m =>
+    have := none_due hm hdone i hi
+    omega
+  | @cons k m m' j fs hd tl ih =>
+    by_cases hji : j = i
+    · subst hji
+      left
+      exact ⟨_, List.mem_cons_self, rfl, rfl⟩
+    · by_cases ht : ∃ a ∈ cb k j, a.target = i
+      · obtain ⟨a, ha, hta⟩ := ht
+        right
+        exact ⟨0, ⟨j, (m.tm j).finish⟩, a, by simp, by simpa using ha, hta⟩
+      · have hu : ∀ a ∈ cb k j, a.target ≠ i := fun a ha e => ht ⟨a, ha, e⟩
+        have hb := execBody_untouched_other m (cb k j) i j hu (Ne.symm hji)
+        have hm2 := hm.execBody (cb k j) (hcb k j) j
+        rcases ih hm2 hdone (hb.2.mpr hi) (by rw [hb.1]; exact hdue) with ⟨f, hf, h1, h2⟩ | ⟨n, f, a, h1, h2, h3⟩
+        · left
+          exact ⟨f, List.mem_cons_of_mem _ hf, h1, by rw [h2, hb.1]⟩
+        · right
+          refine ⟨n + 1, f, a, by simpa using h1, ?_, h3⟩
+          have e : k + (n + 1) = k + 1 + n := by omega
+          rw [e]; exact h2
+
+end Igris.C16
